@@ -48,7 +48,7 @@ def main():
     random.seed(seed)
     budget = float(os.environ.get('VERIF_TIMEOUT_SCALE', '1')) * h.timeout[tier]
     res = explore(h.body(tier), bounds={}, timeout=budget, per_path=h.per_path, max_paths=h.max_paths,
-                  float_model=h.float_model, known=preds)
+                  float_model=h.float_model, known=preds, smt_timeout=h.smt_timeout)
     res['harness'] = hname
     res['tier'] = tier
     res['bounds'] = h.bounds[tier]
@@ -69,7 +69,7 @@ def main():
     # known findings: each must still be witnessed inside its predicate
     for k in known:
         w = explore(h.body(tier), bounds={}, timeout=budget, per_path=h.per_path, float_model=h.float_model,
-                    only=k['predicate'])
+                    only=k['predicate'], smt_timeout=h.smt_timeout)
         res['known'].append({'what': k['what'], 'predicate': k['predicate'], 'witnessed': w['verdict'] == 'REFUTED',
                              'witness': (w['failures'][0]['readable'] if w['failures'] else None),
                              'failure': (w['failures'][0]['concrete_failure'] if w['failures'] else None),
@@ -84,7 +84,7 @@ def main():
                 res['twins'][goal] = 'witnessed'
                 continue
             w = explore(h.twin_body(tier, goal), bounds={}, timeout=max(60.0, budget / 2), per_path=h.per_path,
-                        float_model=h.float_model, known=preds)
+                        float_model=h.float_model, known=preds, smt_timeout=h.smt_timeout)
             ok = bool(w['failures']) and w['failures'][0]['concrete_failure'].get('type') == 'Reached'
             res['twins'][goal or 'end'] = 'witnessed' if ok else 'NOT-REACHED'
             if ok and goal is not None:
